@@ -56,6 +56,7 @@ fn parses_to_literal(prefix: &str, text: &str, c: char) -> bool {
 fn oracle(out: &str) {
     let mut orbit = vec![];
     let mut lower = vec![];
+    let mut upper = vec![];
     let mut ext = vec![];
     let mut mark_or_other = vec![];
     let mut gc_mark = vec![];
@@ -83,6 +84,10 @@ fn oracle(out: &str) {
         let l: Vec<u32> = c.to_string().to_lowercase().chars().map(|x| x as u32).collect();
         if l != vec![cp] {
             lower.push(json!([cp, l]));
+        }
+        let up: Vec<u32> = c.to_string().to_uppercase().chars().map(|x| x as u32).collect();
+        if up != vec![cp] {
+            upper.push(json!([cp, up]));
         }
         let s = format!("a{}", c);
         let cat = GeneralCategory::of(c);
@@ -125,6 +130,7 @@ fn oracle(out: &str) {
         "w": ranges_json(&class(r"\w")),
         "orbit": orbit,
         "lower1": lower,
+        "upper1": upper,
         "ext_nonmark": ranges_json(&to_ranges(&ext)),
         "mark_or_other": ranges_json(&to_ranges(&mark_or_other)),
         "gc_mark": ranges_json(&to_ranges(&gc_mark)),
@@ -283,6 +289,38 @@ fn run_op(op: &Value) -> Value {
             apply_settings(&mut b, &op["settings"]);
             cps(&b.build())
         }
+        "build_twice" => {
+            // two build() calls on the SAME builder, then one on a clone made in between
+            let v: Vec<String> = op["cases"].as_array().unwrap().iter().map(s_of).collect();
+            let mut b = grex::RegExpBuilder::from(&v);
+            apply_settings(&mut b, &op["settings"]);
+            let first = b.build();
+            let mut c = b.clone();
+            let second = b.build();
+            let third = c.build();
+            json!([cps(&first), cps(&second), cps(&third)])
+        }
+        "cluster_repetitions" => {
+            let r = h::cluster_repetitions(
+                &s_of(&op["s"]),
+                op["min_repetitions"].as_u64().unwrap() as u32,
+                op["min_substring_length"].as_u64().unwrap() as u32,
+            );
+            Value::Array(
+                r.iter()
+                    .map(|(d, chars, mn, mx)| json!([d, chars.iter().map(|c| cps(c)).collect::<Vec<_>>(), mn, mx]))
+                    .collect(),
+            )
+        }
+        "char_count" => {
+            let v: Vec<String> = op["units"].as_array().unwrap().iter().map(s_of).collect();
+            json!(h::char_count(v, b_of(&op["escaped"])))
+        }
+        "indent_regexp" => cps(&h::indent_regexp(
+            s_of(&op["s"]),
+            b_of(&op["no_start_anchor"]),
+            b_of(&op["colored"]),
+        )),
         "regex_is_match" => {
             let pat = s_of(&op["pattern"]);
             let text = s_of(&op["text"]);
